@@ -83,9 +83,21 @@ class SyncKill:
             self.chk.violation('data_modified', 'an uninterrupted sync modified the data disks', self.desc)
         drop(a)
 
-    def points(self):
+    def points(self, autosave_window=False):
+        """every numbered call x {before, after, short}.  autosave_window: only the calls of the autosave sequence (io_stop has no
+        system call of its own: 'before' the first parity fsync = right after io_stop and its last parity writes; parity fsyncs;
+        the content save; 'after' the rename = before io_start; the first parity writes after the restart) and a few around"""
+        lo, hi = 1, len(self.calls)
+        if autosave_window:
+            fs_ = [n for (n, call, path, rest) in self.calls if call == 'fsync' and path.endswith('.parity')]
+            ren = [n for (n, call, path, rest) in self.calls if call == 'rename' and 'snapraid.content' in path]
+            ncp = max(1, self.scn.ncontent)
+            if fs_ and len(ren) > ncp:
+                lo, hi = min(fs_) - 2 * self.scn.np - 1, ren[2 * ncp - 1] + 2 * self.scn.np + 1
         pts = []
         for (n, call, path, rest) in self.calls:
+            if not (lo <= n <= hi):
+                continue
             pts.append((n, 'before'))
             pts.append((n, 'after'))
             if call in WRITE_CALLS:
@@ -127,19 +139,18 @@ class SyncKill:
                 self.stats['content_loads'] += 1
                 if not loads_ok(rc_):
                     chk.violation('load', 'after a sync killed at call %d (%s) `%s` cannot load the content (rc %d): %s' % (k, mode, ' '.join(cmd), rc_.rc, (rc_.err or rc_.out)[-200:]), rep)
-            race_key = None
             # 3. kill_inv: every copy that decodes satisfies the C06 invariant with the parity on disk
             for i, st in vc:
                 errs = a.check_map(st)
                 perr, n = a.check_parity(st)
                 self.stats['kill_inv_stripes'] += n
                 for e in (errs + perr)[:2]:
-                    race = self.autosave_at and self.cache > 1
-                    if race:
+                    what = 'sync killed at call %d (%s): content copy %d records a stripe as synced whose parity is not valid: %s' % (k, mode, i, e)
+                    if self.autosave_at:
+                        # F-C07-autosave-writers-not-drained was repaired in /repo (6a618a2: io_stop before the autosave): plain violation
                         self.stats['autosave_race_hits'] += 1
-                        race_key = KEY_AUTOSAVE     # what follows from it in this case (stale parity never repaired, recovery failing) is the same finding
-                    chk.violation('kill_inv', 'sync killed at call %d (%s): content copy %d records a stripe as synced whose parity is not valid: %s' % (k, mode, i, e),
-                                  rep, finding_key=KEY_AUTOSAVE if race else None)
+                        what = 'REGRESSION of F-C07-autosave-writers-not-drained? (autosave at %d, io_cache %d) ' % (self.autosave_at, self.cache) + what
+                    chk.violation('kill_inv', what, rep)
             # 4. adds only: every file synced before stays recoverable from any single lost device
             if self.adds_only and self.synced_before:
                 devs = [('d', dname) for dname in a.disks] + [('p', l) for l in range(a.np)]
@@ -154,7 +165,7 @@ class SyncKill:
                         if torn and a.np == 1:
                             self.stats['torn_write_np1_unrecoverable'] += 1     # Q-C07: measured, not a violation
                         else:
-                            chk.violation('adds_only', 'sync (additions only) killed at call %d (%s): after losing %s, fix does not restore the previously synced %s' % (k, mode, dev, bad[:2]), rep, finding_key=race_key)
+                            chk.violation('adds_only', 'sync (additions only) killed at call %d (%s): after losing %s, fix does not restore the previously synced %s' % (k, mode, dev, bad[:2]), rep)
             # 5. the next sync completes and re-establishes the guarantee
             rs = a.run('sync')
             if rs.rc != 0:
@@ -165,7 +176,7 @@ class SyncKill:
             left = all_synced(a, st)
             perr, _ = a.check_parity(st)
             if left or perr:
-                chk.violation('resume_state', 'sync after a sync killed at call %d (%s) leaves stripes %s unsynced, parity errors %s' % (k, mode, left, perr[:2]), rep, finding_key=race_key)
+                chk.violation('resume_state', 'sync after a sync killed at call %d (%s) leaves stripes %s unsynced, parity errors %s' % (k, mode, left, perr[:2]), rep)
             d = data_equal(self.pre_snap, a.snapshot_data())
             if d:
                 chk.violation('data_modified', 'the resumed sync modified data files: %s' % d[:3], rep)
@@ -181,7 +192,7 @@ class SyncKill:
                     exp = {kk: v for kk, v in final.items() if kk[0] == dname}
                     dd = data_equal(exp, got)
                     if rf.rc != 0 or dd:
-                        chk.violation('c01', 'after kill at call %d (%s) and a completed sync, losing %s is not recovered by fix (rc %d): %s' % (k, mode, dname, rf.rc, dd[:3]), rep, finding_key=race_key)
+                        chk.violation('c01', 'after kill at call %d (%s) and a completed sync, losing %s is not recovered by fix (rc %d): %s' % (k, mode, dname, rf.rc, dd[:3]), rep)
                 finally:
                     drop(b)
         finally:
@@ -600,9 +611,21 @@ def autosave_witness(chk, binary, shim, slow):
         perr, n = a.check_parity(st)
         view = stripe_view(a, st)
         res = {'replayed': True, 'stripes_recorded_synced': [p for p in view if view[p]['allblk']], 'stale': perr[:8]}
+        # the same with a cache of 3
+        b3 = scn.build()
+        b3.shim = slow + ':' + shim
+        try:
+            r3 = b3.run('sync', '--test-io-cache', '3', '--test-force-autosave-at', '3',
+                        shim_env={'C07_SLOW_MS': '60', 'VSHIM_KILL_ON': 'rename:snapraid.content:2:after'})
+            p3, _ = b3.check_parity(b3.content())
+            res['cache3_stale'] = p3[:3]
+            if p3:
+                chk.violation('kill_inv_autosave', 'REGRESSION of F-C07-autosave-writers-not-drained: sync --test-io-cache 3 --test-force-autosave-at 3 with delayed parity writes, killed after the autosave rename: %s' % p3[0], res)
+        finally:
+            drop(b3)
         if perr:
-            chk.violation('kill_inv_autosave', 'sync --test-io-cache 8 --test-force-autosave-at 3 with delayed parity writes, killed after the autosave rename: %d stripes recorded synced have no valid parity (%s)' % (len(perr), perr[0]),
-                          res, finding_key=KEY_AUTOSAVE)
+            chk.violation('kill_inv_autosave', 'REGRESSION of F-C07-autosave-writers-not-drained: sync --test-io-cache 8 --test-force-autosave-at 3 with delayed parity writes, killed after the autosave rename: %d stripes recorded synced have no valid parity (%s)' % (len(perr), perr[0]),
+                          res)
         # the single-thread mode does not have the race
         b = scn.build()
         b.shim = slow + ':' + shim
@@ -645,10 +668,13 @@ def main(tier, replay=None):
     quick = tier == 'quick'
     # ---- (b) abrupt kills
     if quick:
-        confs = [('adds', 2, 1, 1, 1, 0), ('adds', 2, 2, 3, 1, 0), ('mixed', 3, 2, 3, 2, 0), ('adds3', 3, 1, 3, 1, 0)]
+        confs = [('adds', 2, 1, 1, 1, 0), ('adds', 2, 2, 3, 1, 0), ('mixed', 3, 2, 3, 2, 0), ('adds3', 3, 1, 3, 1, 0),
+                 # kill points inside the autosave sequence (io_stop, parity fsyncs, content save, restart), every io mode
+                 ('adds', 2, 2, 1, 1, 5), ('adds', 2, 2, 3, 1, 5), ('adds', 2, 2, 8, 1, 5)]
     else:
         confs = [('adds', 2, 1, 1, 1, 0), ('adds', 2, 2, 3, 1, 0), ('mixed', 3, 2, 3, 2, 0), ('adds', 3, 3, 8, 3, 0), ('mixed', 2, 1, 1, 1, 0),
-                 ('fresh', 2, 2, 3, 2, 0), ('adds', 2, 2, 1, 2, 5), ('mixed', 3, 3, 128, 3, 0), ('adds', 2, 1, 3, 1, 0), ('adds', 2, 2, 8, 1, 5),
+                 ('fresh', 2, 2, 3, 2, 0), ('adds', 2, 2, 1, 2, 5), ('mixed', 3, 3, 128, 3, 0), ('adds', 2, 1, 3, 1, 0), ('adds', 2, 2, 8, 1, 5), ('adds', 2, 2, 3, 2, 5),
+                 ('adds', 3, 1, 8, 1, 6), ('adds', 2, 1, 3, 1, 6),
                  ('adds3', 3, 1, 3, 1, 0), ('adds3', 4, 2, 1, 2, 0), ('adds3', 3, 2, 8, 1, 0)]
     tot = {}
     conf_sum = []
@@ -661,7 +687,7 @@ def main(tier, replay=None):
             chk.violation('setup', 'configuration %s cannot be prepared: %s' % ((name, nd, np_, cache), e), {'conf': [name, nd, np_, cache]}, no_input=True)
             continue
         traces_ok += K.trace_check(None)
-        pts = K.points()
+        pts = K.points(autosave_window=bool(quick and autosave_at))
         pmap(K.kill_case, pts)
         for k, v in K.stats.items():
             tot[k] = tot.get(k, 0) + v
